@@ -14,6 +14,8 @@ Decided:
     queue_select first, queue_enable = 1 last, notify at queue_notify_off * multiplier / 2 through a checked get, ISR read,
     generation read, Drop = reset and wait.
  W4 nothing else is dereferenced: every UniqueMmioPointer::new in the transport constructor is fed by a W1 result.
+ W5 typed slice windows never extend past the capability length (C13.G5).  W6 config-space accessors admit an access
+    only inside the device-config window (C13.G1 table).
 Not decided: the HAL's mmio_phys_to_virt mapping itself.
 """
 from .common import *
